@@ -54,6 +54,7 @@ type Query struct {
 	Where     *Pred      `json:"where,omitempty"`
 	WhereIn   *InSub     `json:"where_in,omitempty"`
 	GroupBy   []string   `json:"group_by,omitempty"`
+	GroupEx   []GroupEx  `json:"group_ex,omitempty"` // expression dims: <expr> AS <name>
 	GroupStar bool       `json:"group_star,omitempty"`
 	GroupNone bool       `json:"group_none,omitempty"` // GROUP BY _
 	PeriodNS  int64      `json:"period,omitempty"`
@@ -64,6 +65,12 @@ type Query struct {
 	OrderBy   []OrderKey `json:"order_by,omitempty"`
 	Limit     int        `json:"limit,omitempty"`
 	Offset    int        `json:"offset,omitempty"`
+}
+
+// GroupEx is a GROUP BY expression with an alias.
+type GroupEx struct {
+	Name string `json:"name"`
+	SQL  string `json:"sql"`
 }
 
 // SQL renders the query.
@@ -113,6 +120,9 @@ func (q *Query) SQL() string {
 		gb = append(gb, "_")
 	}
 	gb = append(gb, q.GroupBy...)
+	for _, ge := range q.GroupEx {
+		gb = append(gb, ge.SQL+" AS "+ge.Name)
+	}
 	if len(q.Crosstab) > 0 {
 		fn := "CROSSTAB"
 		if q.CrosstabT {
@@ -159,5 +169,5 @@ func (q *Query) SQL() string {
 // Regroups reports whether the query changes grouping/period/fields relative
 // to a plain SELECT *.
 func (q *Query) Regroups() bool {
-	return len(q.GroupBy) > 0 || q.GroupNone || q.PeriodNS > 0 || q.StrideNS > 0 || len(q.Crosstab) > 0 || q.Having != nil || q.FromSub != nil
+	return len(q.GroupBy) > 0 || len(q.GroupEx) > 0 || q.GroupNone || q.PeriodNS > 0 || q.StrideNS > 0 || len(q.Crosstab) > 0 || q.Having != nil || q.FromSub != nil
 }
